@@ -252,6 +252,13 @@ def session(addpath=False, asn4=True):
     return _SESS[key]
 
 
+def addpath_ok(afi, safi):
+    """ADD-PATH units exist for the families a session can negotiate it for (the configuration grammar offers it for
+    unicast, nlri-mpls, mpls-vpn and mup only)"""
+    a, s = AFI.from_int(afi), SAFI.from_int(safi)
+    return (int(afi), int(safi)) not in UNCONFIGURABLE and bool(session(True).addpath.send(a, s))
+
+
 _LS_SNAPSHOT = None
 
 
@@ -445,7 +452,7 @@ def rng(a, b):
 def nlri_units(tier):
     th = tier == 'thorough'
     us = []
-    T = 1500 if th else 240
+    T = 1500 if th else 600
 
     def add(name, afi, safi, builder, cover=('decoded', 'refused'), addpath=False, action=Action.ANNOUNCE, weight=10, kind=None, max_paths=20000):
         us.append(Unit('dec/nlri/' + name, lambda ctx: h_dec_nlri(ctx, afi, safi, builder, addpath, action, kind), must_cover=cover,
@@ -458,7 +465,7 @@ def nlri_units(tier):
         if s in (1, 2):
             lens = rng(0, 6) + ([full + 1, full + 2] if full + 1 > 6 else []) if not th else rng(0, full + 2)
             add(fam + '/swept', a, s, swept(lens), ('decoded', 'refused', 'canonical'), weight=20)
-            if (a, s) not in UNCONFIGURABLE:
+            if addpath_ok(a, s):
                 add(fam + '/addpath', a, s, swept([x + 4 for x in lens] + [0, 3, 4]), ('decoded', 'refused', 'canonical'), addpath=True, weight=20)
         elif s == 4:
             lens = (rng(0, 8) + [11, full + 4, full + 7]) if not th else rng(0, full + 8)
@@ -487,7 +494,6 @@ def nlri_units(tier):
                     lens = rng(0, 8)
                 add('%s/%s' % (fam, tag), a, s, swept(lens, head=lambda L, code=code: [code, max(0, L - 2)]), weight=60, kind='%s:%s' % (fam, tag))
             add(fam + '/free', a, s, swept(rng(0, 5)), weight=60)
-            add(fam + '/addpath-flag', a, s, swept([27], head=lambda L: [1, L - 2]), ('decoded',), addpath=True, weight=5, kind=fam + ':type1')
         elif s == 85:
             for key in sorted(MUP.registered_mup) + ['1:99']:
                 arch, code = [int(x) for x in key.split(':')]
@@ -754,7 +760,7 @@ def dec_attr(ctx, code, flag, shape, asn4=True, kind=None, deep=None):
             n_routes = len(list(obj))
     except REFUSAL as exc:
         ctx.cover('refused')
-        ctx.note('class', 'refused')
+        ctx.note('class', 'refused' if isinstance(exc, Notify) else 'refused-by-%s' % type(exc).__name__)
         return ('refused', type(exc).__name__)
     except Exception as exc:
         # which exceptions may escape a decoder is property C03, not C15: here it is a refusal, kept in the census
@@ -1015,6 +1021,16 @@ def sh_ls_two(a, na, b, nb):
     return lambda ctx: Shape(be(a, 2) + be(na, 2) + sym(ctx, 'a', na) + be(b, 2) + be(nb, 2) + sym(ctx, 'b', nb))
 
 
+# SegmentTypeA.pack rebuilds the 32-bit label entry as (label << 12) | (tc << 9) | S | ttl from four decoded fields: an OR of
+# symbolic operands, which z3 answered `unknown` to on free octets.  The entry is therefore one of these patterns (label, tc, S,
+# ttl all exercised, the 12 low bits both zero and non-zero), the flags and reserved octets stay symbolic.
+SEG_A_ENTRIES = ((0x00, 0x06, 0x41, 0x00), (0xff, 0xff, 0xf0, 0x00), (0x12, 0x34, 0x5f, 0xfe), (0x00, 0x00, 0x03, 0x40))
+
+
+def seg_a(ctx, name):
+    return sym(ctx, name + '.fl', 2) + list(ctx.pick(name + '.entry', SEG_A_ENTRIES))
+
+
 def sh_tunnel_sub(sub, th):
     """one SR-policy tunnel (type 15) holding one sub-TLV of the given type"""
     def wrap(subitems, canon=(), why=''):
@@ -1073,11 +1089,11 @@ def sh_tunnel_sub(sub, th):
             elif which == 'weight':
                 v = sym(ctx, 'r', 1) + [9, 6] + sym(ctx, 'w', 6)
             elif which == 'type-a':
-                v = sym(ctx, 'r', 1) + [1, 6] + sym(ctx, 'a', 6)
+                v = sym(ctx, 'r', 1) + [1, 6] + seg_a(ctx, 'a')
             elif which == 'type-b':
                 v = sym(ctx, 'r', 1) + [13, 18] + sym(ctx, 'b', 18)
             elif which == 'weight+a+b':
-                v = sym(ctx, 'r', 1) + [9, 6] + sym(ctx, 'w', 6) + [1, 6] + sym(ctx, 'a', 6) + [13, 18] + sym(ctx, 'b', 18)
+                v = sym(ctx, 'r', 1) + [9, 6] + sym(ctx, 'w', 6) + [1, 6] + seg_a(ctx, 'a') + [13, 18] + sym(ctx, 'b', 18)
             else:
                 v = sym(ctx, 'r', 1) + sym(ctx, 'f', ctx.pick('n', rng(1, 4 if th else 3)))
             return wrap(hdr(len(v)) + v, None, 'segment-list')
@@ -1239,7 +1255,7 @@ def attr_plans(tier):
 
 def attr_units(tier):
     th = tier == 'thorough'
-    T = 1500 if th else 240
+    T = 1500 if th else 600
     us = []
     for name, code, flag, builder, cover, opt in attr_plans(tier):
         asn4 = opt.get('asn4', True)
@@ -1249,8 +1265,714 @@ def attr_units(tier):
     return us
 
 
+# ============================================================================= encode -> decode (clause a, from the factories)
+#
+# An object is built by the factory method the configuration parser / API use, with symbolic field values; it is packed by
+# pack_nlri / pack_attribute and the octets are given to the registered decoder.  The decoded object must be equal (the class's
+# own ==, index, and every listed field), must pack to the same octets, and must hash and render the same (witness).
+
+from exabgp.bgp.message.update.nlri.cidr import CIDR   # noqa: E402
+from exabgp.bgp.message.update.nlri.inet import INET   # noqa: E402
+from exabgp.bgp.message.update.nlri.label import Label   # noqa: E402
+from exabgp.bgp.message.update.nlri.ipvpn import IPVPN   # noqa: E402
+from exabgp.bgp.message.update.nlri.vpls import VPLS   # noqa: E402
+from exabgp.bgp.message.update.nlri.rtc import RTC   # noqa: E402
+from exabgp.bgp.message.update.nlri.sr_policy import SRPolicyNLRI   # noqa: E402
+from exabgp.bgp.message.update.nlri.qualifier import Labels, PathInfo, RouteDistinguisher, ESI, EthernetTag   # noqa: E402
+from exabgp.bgp.message.update.nlri.qualifier import MAC as MACQ   # noqa: E402
+from exabgp.bgp.message.open.asn import ASN   # noqa: E402
+from exabgp.protocol.ip import IPv4, IPv6   # noqa: E402
+
+
+def fld(o, path):
+    """a field by dotted path; a callable step is called"""
+    for step in path.split('.'):
+        o = o[int(step)] if step.isdigit() else getattr(o, step)
+        if callable(o) and not isinstance(o, type):
+            o = o()
+    return o
+
+
+def enc_nlri(ctx, kind, x, afi, safi, fields=(), action=Action.ANNOUNCE, addpath=False):
+    afi, safi = AFI.from_int(afi), SAFI.from_int(safi)
+    neg = session(addpath)
+    out = B(ctx, x.pack_nlri(neg))
+    ctx.cover('encoded')
+    try:
+        y, left = NLRI.unpack_nlri(afi, safi, out, action, addpath, neg)
+    except Exception as exc:
+        ctx.check('own-encoding-decodes', False, sig='C15:enc:nlri:%s:own-encoding-refused' % kind, info={'out': out, 'raised': '%s %s' % (type(exc).__name__, str(exc)[:160])})
+        return ('refused', type(exc).__name__)
+    if not chk(ctx, 'own-encoding-decodes', y is not NLRI.INVALID, 'C15:enc:nlri:%s:own-encoding-refused' % kind, lambda: {'out': out}):
+        return ('invalid',)
+    ctx.cover('decoded')
+    chk(ctx, 'whole', len(left) == 0, 'C15:enc:nlri:%s:left-over' % kind, lambda: {'out': out})
+    chk(ctx, 'same-class', type(y) is type(x), 'C15:enc:nlri:%s:class-changes' % kind, lambda: {'built': type(x).__name__, 'decoded': type(y).__name__})
+    chk(ctx, 'family', s_and(sx_eq(int(y.afi), int(x.afi)), sx_eq(int(y.safi), int(x.safi))), 'C15:enc:nlri:%s:family-changes' % kind,
+        lambda: {'built': '%s/%s' % (x.afi, x.safi), 'decoded': '%s/%s' % (y.afi, y.safi)})
+    for f in fields:
+        try:
+            a, b = state(fld(x, f)), state(fld(y, f))
+        except Exception as exc:
+            ctx.check('field:' + f, False, sig='C15:enc:nlri:%s:field-%s-unreadable' % (kind, f), info={'out': out, 'raised': '%s %s' % (type(exc).__name__, str(exc)[:160])})
+            continue
+        chk(ctx, 'field:' + f, sx_eq(a, b), 'C15:enc:nlri:%s:field-%s-differs' % (kind, f), lambda: {'out': out, 'built': a, 'decoded': b})
+    chk(ctx, 'same-octets', sx_eq(B(ctx, y.pack_nlri(neg)), out), 'C15:enc:nlri:%s:repack-differs' % kind, lambda: {'out': out, 'again': y.pack_nlri(neg)})
+    chk(ctx, 'equal-index', sx_eq(B(ctx, y.index()), B(ctx, x.index())), 'C15:enc:nlri:%s:equal-routes-different-index' % kind, lambda: {'out': out})
+    chk(ctx, 'equal-route', eq_by_class(y, x), 'C15:enc:nlri:%s:decoded-route-not-equal' % kind, lambda: {'out': out})
+    if not ctx.sym:
+        ctx.witness_check('equal-hash', lambda: hash(y) == hash(x), sig='C15:enc:nlri:%s:equal-routes-different-hash' % kind, info={'out': out})
+        ctx.witness_check('same-text', lambda: texts(y) == texts(x), sig='C15:enc:nlri:%s:rendering-differs' % kind, info={'built': str(texts(x))[:300], 'decoded': str(texts(y))[:300]})
+    return ('round-trip', type(y).__name__, len(out))
+
+
+def q_bytes(ctx, name, n):
+    return mk(ctx, sym(ctx, name, n))
+
+
+def q_ip(ctx, name, v6):
+    return (IPv6 if v6 else IPv4)(q_bytes(ctx, name, 16 if v6 else 4))
+
+
+def q_rd(ctx, name='rd'):
+    return RouteDistinguisher(q_bytes(ctx, name, 8))
+
+
+def q_cidr(ctx, v6, name='pfx', sizes=None):
+    """address octets symbolic, mask symbolic over its whole range (the prefix size in octets is chosen first: the encoder and the
+    decoder slice on it; every mask of that size stays symbolic); the octets after the prefix are zero, which is what the text
+    parser and the decoder both produce (CIDR keeps the full-length address)"""
+    full = 16 if v6 else 4
+    nbytes = ctx.pick(name + '.octets', list(sizes) if sizes is not None else list(range(full + 1)))
+    mask = ctx.int(name + '.mask', max(0, 8 * nbytes - 7), 8 * nbytes)
+    items = sym(ctx, name, nbytes) + [0] * (full - nbytes)
+    return CIDR.create_cidr(mk(ctx, items), mask)
+
+
+def q_path(ctx, on, name='pathid'):
+    return PathInfo(q_bytes(ctx, name, 4)) if on else PathInfo.DISABLED
+
+
+def q_labels(ctx, depth, name='label'):
+    return Labels.make_labels([ctx.int('%s%d' % (name, i), 0, Labels.MAX) for i in range(depth)])
+
+
+def stack_class(ctx, depth, action, name='label'):
+    """the input class the label-stack defect is tied to (signature only): forks on it"""
+    if depth >= 2:
+        first = ctx.int('%s0' % name, 0, Labels.MAX)
+        if bool(first == 0):
+            return ':label-0-above-another-label'
+        if action == Action.WITHDRAW and bool(first == 0x80000):
+            return ':withdraw-label-524288-above-another-label'
+    return ''
+
+
+def enc_nlri_units(tier):
+    th = tier == 'thorough'
+    us = []
+    T = 1500 if th else 600
+
+    def add(name, fn, weight=10, cover=('encoded', 'decoded')):
+        us.append(Unit('enc/nlri/' + name, fn, must_cover=cover, weight=weight, max_seconds=T, max_paths=20000, reset=reset_state, hash_const=True))
+
+    for v6 in (False, True):
+        afi = 2 if v6 else 1
+        v = 'ipv6' if v6 else 'ipv4'
+        for safi, sname in ((1, 'unicast'), (2, 'multicast')):
+            for ap in ((False, True) if safi == 1 else (False,)):
+                add('%s-%s%s' % (v, sname, '/addpath' if ap else ''),
+                    lambda ctx, v6=v6, afi=afi, safi=safi, ap=ap, v=v, sname=sname: enc_nlri(
+                        ctx, '%s-%s' % (v, sname), INET.from_cidr(q_cidr(ctx, v6), AFI.from_int(afi), SAFI.from_int(safi), q_path(ctx, ap)), afi, safi,
+                        ('cidr.mask', 'cidr.pack_ip', 'path_info.pack_path'), addpath=ap), weight=20)
+        for depth in ((1, 2, 3) if th else (1, 2)):
+            for ap in (False, True):
+                for action in (Action.ANNOUNCE, Action.WITHDRAW):
+                    if ap and action == Action.WITHDRAW and not th:
+                        continue
+                    add('%s-nlri-mpls/labels%d%s%s' % (v, depth, '/addpath' if ap else '', '/withdraw' if action == Action.WITHDRAW else ''),
+                        lambda ctx, v6=v6, afi=afi, ap=ap, depth=depth, action=action, v=v: enc_nlri(
+                            ctx, '%s-nlri-mpls%s' % (v, stack_class(ctx, depth, action)), Label.from_cidr(q_cidr(ctx, v6), AFI.from_int(afi), SAFI.nlri_mpls, q_path(ctx, ap), q_labels(ctx, depth)), afi, 4,
+                            ('cidr.mask', 'cidr.pack_ip', 'path_info.pack_path', 'labels.labels'), action=action, addpath=ap), weight=40)
+            add('%s-mpls-vpn/labels%d' % (v, depth),
+                lambda ctx, v6=v6, afi=afi, depth=depth, v=v: enc_nlri(
+                    ctx, '%s-mpls-vpn%s' % (v, stack_class(ctx, depth, Action.ANNOUNCE)), IPVPN.from_cidr(q_cidr(ctx, v6), AFI.from_int(afi), SAFI.mpls_vpn, PathInfo.DISABLED, q_labels(ctx, depth), q_rd(ctx)), afi, 128,
+                    ('cidr.mask', 'cidr.pack_ip', 'labels.labels', 'rd.pack_rd')), weight=40)
+        add('%s-mpls-vpn/addpath' % v,
+            lambda ctx, v6=v6, afi=afi, v=v: enc_nlri(
+                ctx, '%s-mpls-vpn' % v, IPVPN.from_cidr(q_cidr(ctx, v6), AFI.from_int(afi), SAFI.mpls_vpn, q_path(ctx, True), q_labels(ctx, 1), q_rd(ctx)), afi, 128,
+                ('cidr.mask', 'cidr.pack_ip', 'labels.labels', 'rd.pack_rd', 'path_info.pack_path'), addpath=True), weight=40)
+        add('%s-sr-policy' % v,
+            lambda ctx, v6=v6, afi=afi, v=v: enc_nlri(
+                ctx, '%s-sr-policy' % v, SRPolicyNLRI.create(AFI.from_int(afi), ctx.int('dist', 0, 2 ** 32 - 1), ctx.int('color', 0, 2 ** 32 - 1), ctx.pick('ep', ('2001:db8::1', '::') if v6 else ('192.0.2.1', '255.255.255.255'))), afi, 73,
+                ('distinguisher', 'color', 'endpoint')))
+    add('l2vpn-vpls',
+        lambda ctx: enc_nlri(ctx, 'l2vpn-vpls', VPLS.make_vpls(q_rd(ctx), ctx.int('endpoint', 0, 65535), ctx.int('base', 0, 2 ** 20 - 1), ctx.int('offset', 0, 65535), ctx.int('size', 0, 65535)), 25, 65,
+                             ('rd.pack_rd', 'endpoint', 'base', 'offset', 'block_size')))
+
+    def rtc(ctx):
+        from exabgp.bgp.message.update.attribute.community.extended.rt import RouteTargetASN2Number, RouteTargetIPNumber, RouteTargetASN4Number
+        which = ctx.pick('rt', ('asn2', 'asn4', 'wildcard'))
+        if which == 'wildcard':
+            rt = None
+        elif which == 'asn2':
+            rt = RouteTargetASN2Number.make_route_target(ASN(ctx.int('rt.asn', 0, 65535)), ctx.int('rt.number', 0, 2 ** 32 - 1), bool(ctx.choice('transitive', 2)))
+        else:
+            rt = RouteTargetASN4Number.make_route_target(ASN(ctx.int('rt.asn', 0, 2 ** 32 - 1)), ctx.int('rt.number', 0, 65535), bool(ctx.choice('transitive', 2)))
+        x = RTC.make_rtc(ASN(ctx.int('origin', 0, 2 ** 32 - 1)), rt)
+        return enc_nlri(ctx, 'ipv4-rtc', x, 1, 132, () if rt is None else ('origin', 'rt.pack'))
+    add('ipv4-rtc', rtc)
+
+    # ---- EVPN
+    from exabgp.bgp.message.update.nlri.evpn.mac import MAC as EVPNMAC
+    from exabgp.bgp.message.update.nlri.evpn.multicast import Multicast
+    from exabgp.bgp.message.update.nlri.evpn.ethernetad import EthernetAD
+    from exabgp.bgp.message.update.nlri.evpn.segment import EthernetSegment
+    from exabgp.bgp.message.update.nlri.evpn.prefix import Prefix as EVPNPrefix
+
+    def esi(ctx):
+        return ESI(q_bytes(ctx, 'esi', 10))
+
+    def etag(ctx):
+        return EthernetTag.make_etag(ctx.int('etag', 0, 2 ** 32 - 1))
+
+    def evpn_mac(ctx):
+        ipk = ctx.pick('ip', ('none', 'v4', 'v6'))
+        ip = None if ipk == 'none' else q_ip(ctx, 'ip', ipk == 'v6')
+        x = EVPNMAC.make_mac(q_rd(ctx), esi(ctx), etag(ctx), MACQ(packed=q_bytes(ctx, 'mac', 6)), 48, q_labels(ctx, ctx.pick('depth', (1, 2))), ip)
+        return enc_nlri(ctx, 'l2vpn-evpn:mac', x, 25, 70, ('rd.pack_rd', 'esi.pack_esi', 'etag.pack_etag', 'mac.pack_mac', 'maclen', 'label.labels') + (() if ip is None else ('ip.pack_ip',)))
+    add('l2vpn-evpn/mac', evpn_mac, weight=30)
+    add('l2vpn-evpn/multicast', lambda ctx: enc_nlri(ctx, 'l2vpn-evpn:multicast', Multicast.make_multicast(q_rd(ctx), etag(ctx), q_ip(ctx, 'ip', bool(ctx.choice('v6', 2)))), 25, 70, ('rd.pack_rd', 'etag.pack_etag', 'ip.pack_ip')))
+    add('l2vpn-evpn/ethernet-ad', lambda ctx: enc_nlri(ctx, 'l2vpn-evpn:ethernet-ad', EthernetAD.make_ethernetad(q_rd(ctx), esi(ctx), etag(ctx), q_labels(ctx, ctx.pick('depth', (1, 2)))), 25, 70, ('rd.pack_rd', 'esi.pack_esi', 'etag.pack_etag', 'label.labels')))
+    add('l2vpn-evpn/ethernet-segment', lambda ctx: enc_nlri(ctx, 'l2vpn-evpn:ethernet-segment', EthernetSegment.make_ethernetsegment(q_rd(ctx), esi(ctx), q_ip(ctx, 'ip', bool(ctx.choice('v6', 2)))), 25, 70, ('rd.pack_rd', 'esi.pack_esi', 'ip.pack_ip')))
+
+    def evpn_prefix(ctx):
+        v6 = bool(ctx.choice('v6', 2))
+        x = EVPNPrefix.make_prefix(q_rd(ctx), esi(ctx), etag(ctx), q_labels(ctx, 1), q_ip(ctx, 'ip', v6), ctx.int('iplen', 0, 128 if v6 else 32), q_ip(ctx, 'gw', v6))
+        return enc_nlri(ctx, 'l2vpn-evpn:prefix', x, 25, 70, ('rd.pack_rd', 'esi.pack_esi', 'etag.pack_etag', 'label.labels', 'ip.pack_ip', 'iplen', 'gwip.pack_ip'))
+    add('l2vpn-evpn/prefix', evpn_prefix)
+
+    # ---- MUP
+    from exabgp.bgp.message.update.nlri.mup.dsd import DirectSegmentDiscoveryRoute
+    from exabgp.bgp.message.update.nlri.mup.isd import InterworkSegmentDiscoveryRoute
+    from exabgp.bgp.message.update.nlri.mup.t1st import Type1SessionTransformedRoute
+    from exabgp.bgp.message.update.nlri.mup.t2st import Type2SessionTransformedRoute
+
+    def masked_ip(ctx, name, v6, mask_name):
+        """(prefix length, address with zero octets after the prefix): what the text parser hands to the MUP factories"""
+        full = 16 if v6 else 4
+        mask = ctx.int(mask_name, 0, full * 8)
+        nbytes = ctx.concretize((mask + 7) // 8)
+        return mask, (IPv6 if v6 else IPv4)(mk(ctx, sym(ctx, name, nbytes) + [0] * (full - nbytes)))
+
+    for v6 in (False, True):
+        afi = 2 if v6 else 1
+        v = 'ipv6' if v6 else 'ipv4'
+        add('%s-mup/dsd' % v, lambda ctx, v6=v6, afi=afi, v=v: enc_nlri(ctx, '%s-mup:dsd' % v, DirectSegmentDiscoveryRoute.make_dsd(q_rd(ctx), q_ip(ctx, 'ip', v6), AFI.from_int(afi)), afi, 85, ('rd.pack_rd', 'ip.pack_ip')))
+
+        def isd(ctx, v6=v6, afi=afi, v=v):
+            mask, ip = masked_ip(ctx, 'ip', v6, 'plen')
+            return enc_nlri(ctx, '%s-mup:isd' % v, InterworkSegmentDiscoveryRoute.make_isd(q_rd(ctx), mask, ip, AFI.from_int(afi)), afi, 85, ('rd.pack_rd', 'prefix_ip_len', 'prefix_ip.pack_ip'))
+        add('%s-mup/isd' % v, isd, weight=20)
+
+        def t1st(ctx, v6=v6, afi=afi, v=v):
+            mask, ip = masked_ip(ctx, 'ip', v6, 'plen')
+            full = 128 if v6 else 32
+            src = ctx.pick('source', ('none', 'present'))
+            x = Type1SessionTransformedRoute.make_t1st(q_rd(ctx), mask, ip, ctx.int('teid', 0, 2 ** 32 - 1), ctx.int('qfi', 0, 255), full, q_ip(ctx, 'ep', v6),
+                                                       0 if src == 'none' else full, b'' if src == 'none' else q_ip(ctx, 'src', v6), AFI.from_int(afi))
+            return enc_nlri(ctx, '%s-mup:t1st' % v, x, afi, 85, ('rd.pack_rd', 'prefix_ip_len', 'prefix_ip.pack_ip', 'teid', 'qfi', 'endpoint_ip_len', 'endpoint_ip.pack_ip', 'source_ip_len'))
+        add('%s-mup/t1st' % v, t1st, weight=30)
+
+        def t2st(ctx, v6=v6, afi=afi, v=v):
+            full = 128 if v6 else 32
+            teid_bits = ctx.pick('teid-bits', (0, 8, 32) if not th else (0, 1, 8, 9, 16, 31, 32))
+            teid = ctx.int('teid', 0, 2 ** teid_bits - 1) if teid_bits else 0
+            x = Type2SessionTransformedRoute.make_t2st(q_rd(ctx), full + teid_bits, q_ip(ctx, 'ep', v6), teid, AFI.from_int(afi))
+            return enc_nlri(ctx, '%s-mup:t2st' % v, x, afi, 85, ('rd.pack_rd', 'endpoint_len', 'endpoint_ip.pack_ip', 'teid'))
+        add('%s-mup/t2st' % v, t2st, weight=20)
+
+    # ---- MVPN
+    from exabgp.bgp.message.update.nlri.mvpn.sourcead import SourceAD
+    from exabgp.bgp.message.update.nlri.mvpn.sharedjoin import SharedJoin
+    from exabgp.bgp.message.update.nlri.mvpn.sourcejoin import SourceJoin
+    for v6 in (False, True):
+        afi = 2 if v6 else 1
+        v = 'ipv6' if v6 else 'ipv4'
+        add('%s-mcast-vpn/source-ad' % v, lambda ctx, v6=v6, afi=afi, v=v: enc_nlri(ctx, '%s-mcast-vpn:source-ad' % v, SourceAD.make_sourcead(q_rd(ctx), AFI.from_int(afi), q_ip(ctx, 'src', v6), q_ip(ctx, 'grp', v6)), afi, 5, ('rd.pack_rd', 'source.pack_ip', 'group.pack_ip')))
+        add('%s-mcast-vpn/shared-join' % v, lambda ctx, v6=v6, afi=afi, v=v: enc_nlri(ctx, '%s-mcast-vpn:shared-join' % v, SharedJoin.make_sharedjoin(q_rd(ctx), AFI.from_int(afi), q_ip(ctx, 'src', v6), q_ip(ctx, 'grp', v6), ctx.int('source-as', 0, 2 ** 32 - 1)), afi, 5, ('rd.pack_rd', 'source.pack_ip', 'group.pack_ip', 'source_as')))
+        add('%s-mcast-vpn/source-join' % v, lambda ctx, v6=v6, afi=afi, v=v: enc_nlri(ctx, '%s-mcast-vpn:source-join' % v, SourceJoin.make_sourcejoin(q_rd(ctx), AFI.from_int(afi), q_ip(ctx, 'src', v6), q_ip(ctx, 'grp', v6), ctx.int('source-as', 0, 2 ** 32 - 1)), afi, 5, ('rd.pack_rd', 'source.pack_ip', 'group.pack_ip', 'source_as')))
+    return us
+
+
+def enc_attr(ctx, kind, x, code, fields=(), asn4=True, flag=None, renderings=None):
+    """factory-built attribute -> pack_attribute -> Attribute.unpack: equal attribute, equal fields, same octets, same text"""
+    neg = session(False, asn4)
+    out = B(ctx, x.pack_attribute(neg))
+    ctx.cover('encoded')
+    parts = split_attributes(out)
+    if not chk(ctx, 'one-tlv', parts is not None and len(parts) == 1 and parts[0][1] == code, 'C15:enc:%s:not-one-attribute' % kind, lambda: {'out': out}):
+        return ('not-a-tlv',)
+    oflag, ocode, value = parts[0]
+    try:
+        y = Attribute.unpack(code, oflag, value, neg)
+    except Exception as exc:
+        ctx.check('own-encoding-decodes', False, sig='C15:enc:%s:own-encoding-refused' % kind, info={'out': out, 'raised': '%s %s' % (type(exc).__name__, str(exc)[:160])})
+        return ('refused', type(exc).__name__)
+    if not chk(ctx, 'own-encoding-decodes', not isinstance(y, (TreatAsWithdraw, Discard)), 'C15:enc:%s:own-encoding-refused' % kind, lambda: {'out': out}):
+        return ('refused', type(y).__name__)
+    ctx.cover('decoded')
+    chk(ctx, 'same-class', type(y) is type(x), 'C15:enc:%s:class-changes' % kind, lambda: {'built': type(x).__name__, 'decoded': type(y).__name__})
+    for f in fields:
+        try:
+            a, b = state(fld(x, f)), state(fld(y, f))
+        except Exception as exc:
+            ctx.check('field:' + f, False, sig='C15:enc:%s:field-%s-unreadable' % (kind, f), info={'out': out, 'raised': '%s %s' % (type(exc).__name__, str(exc)[:160])})
+            continue
+        chk(ctx, 'field:' + f, sx_eq(a, b), 'C15:enc:%s:field-%s-differs' % (kind, f), lambda: {'out': out, 'built': a, 'decoded': b})
+    chk(ctx, 'same-octets', sx_eq(B(ctx, y.pack_attribute(neg)), out), 'C15:enc:%s:repack-differs' % kind, lambda: {'out': out})
+    chk(ctx, 'equal-attribute', eq_by_class(y, x), 'C15:enc:%s:decoded-attribute-not-equal' % kind, lambda: {'out': out})
+    if not ctx.sym:
+        tx, ty = texts(x), texts(y)
+        if renderings is not None:
+            tx, ty = [t for t in tx if t[0] in renderings], [t for t in ty if t[0] in renderings]
+        ctx.witness_check('same-text', lambda: ty == tx, sig='C15:enc:%s:rendering-differs' % kind, info={'built': str(tx)[:300], 'decoded': str(ty)[:300]})
+    return ('round-trip', type(y).__name__, len(out))
+
+
+def enc_attr_units(tier):
+    th = tier == 'thorough'
+    us = []
+    T = 1500 if th else 600
+    U32 = 2 ** 32 - 1
+
+    def add(name, fn, weight=10, cover=('encoded', 'decoded')):
+        us.append(Unit('enc/attr/' + name, fn, must_cover=cover, weight=weight, max_seconds=T, max_paths=20000, reset=reset_state, hash_const=True))
+
+    from exabgp.bgp.message.update.attribute.origin import Origin
+    from exabgp.bgp.message.update.attribute.med import MED
+    from exabgp.bgp.message.update.attribute.localpref import LocalPreference
+    from exabgp.bgp.message.update.attribute.aigp import AIGP
+    from exabgp.bgp.message.update.attribute.aspath import ASPath, AS4Path, SET, SEQUENCE, CONFED_SEQUENCE, CONFED_SET
+    from exabgp.bgp.message.update.attribute.aggregator import Aggregator
+    from exabgp.bgp.message.update.attribute.nexthop import NextHop
+    from exabgp.bgp.message.update.attribute.originatorid import OriginatorID
+    from exabgp.bgp.message.update.attribute.clusterlist import ClusterList
+    from exabgp.bgp.message.update.attribute.atomicaggregate import AtomicAggregate
+    from exabgp.bgp.message.update.attribute.community.initial.community import Community
+    from exabgp.bgp.message.update.attribute.community.initial.communities import Communities
+    from exabgp.bgp.message.update.attribute.community.large.community import LargeCommunity
+    from exabgp.bgp.message.update.attribute.community.large.communities import LargeCommunities
+    from exabgp.bgp.message.update.attribute.community.extended.communities import ExtendedCommunities
+    from exabgp.bgp.message.update.attribute.community.extended import rt as _rt, origin as _so
+    from exabgp.bgp.message.update.attribute.community.extended.traffic import TrafficRedirect, TrafficMark, TrafficAction
+    from exabgp.bgp.message.update.attribute.community.extended.mac_mobility import MacMobility
+    from exabgp.bgp.message.update.attribute.community.extended.encapsulation import Encapsulation
+    from exabgp.bgp.message.update.attribute.community.extended.l2info import L2Info
+    from exabgp.bgp.message.update.attribute.sr.labelindex import SrLabelIndex
+    from exabgp.bgp.message.update.attribute.sr.srgb import SrGb
+    from exabgp.bgp.message.update.attribute.tunnel_encap import TunnelEncap
+    from exabgp.bgp.message.update.attribute.tunnel_encap import sr_policy as _sp
+    from exabgp.bgp.message.update.attribute.tunnel_encap.sr_policy.segment_list import WeightSubSubTLV, SegmentTypeA, SegmentTypeB
+
+    add('origin', lambda ctx: enc_attr(ctx, 'attr-1', Origin.from_int(ctx.int('origin', 0, 2)), 1, ('origin',)))
+    add('med', lambda ctx: enc_attr(ctx, 'attr-4', MED.from_int(ctx.int('med', 0, U32)), 4, ('med',)))
+    add('local-preference', lambda ctx: enc_attr(ctx, 'attr-5', LocalPreference.from_int(ctx.int('lp', 0, U32)), 5, ('localpref',)))
+    add('atomic-aggregate', lambda ctx: enc_attr(ctx, 'attr-6', AtomicAggregate.make_atomic_aggregate(), 6))
+    add('aigp', lambda ctx: enc_attr(ctx, 'attr-26', AIGP.from_int(ctx.int('aigp', 0, 2 ** 64 - 1)), 26, ('aigp',)))
+    add('next-hop', lambda ctx: enc_attr(ctx, 'attr-3', NextHop(q_bytes(ctx, 'nh', 4)), 3, ('pack_ip',)))
+    add('originator-id', lambda ctx: enc_attr(ctx, 'attr-9', OriginatorID(q_bytes(ctx, 'oid', 4)), 9, ('pack_ip',)))
+    add('cluster-list', lambda ctx: enc_attr(ctx, 'attr-10', ClusterList.make_clusterlist([IPv4(q_bytes(ctx, 'c%d' % i, 4)) for i in range(ctx.pick('n', (1, 2, 3)))]), 10, ('clusters',)))
+
+    def aspath(ctx, asn4, klass=ASPath, code=2):
+        top = U32 if asn4 else 65535
+        kinds = (SEQUENCE, SET, CONFED_SEQUENCE, CONFED_SET)
+        segs = []
+        for i in range(ctx.pick('segments', (1, 2))):
+            k = kinds[ctx.choice('k%d' % i, 4)]
+            segs.append(k([ASN(ctx.int('as%d.%d' % (i, j), 0, top)) for j in range(ctx.pick('n%d' % i, (1, 2)))]))
+        x = klass.make_aspath(segs, asn4)
+        return enc_attr(ctx, 'attr-%d' % code, x, code, ('aspath',), asn4=asn4)
+    add('as-path/asn4', lambda ctx: aspath(ctx, True), weight=30)
+    add('as-path/asn2', lambda ctx: aspath(ctx, False), weight=30)
+    add('as4-path', lambda ctx: aspath(ctx, True, AS4Path, 17), weight=30)
+    add('aggregator/asn4', lambda ctx: enc_attr(ctx, 'attr-7', Aggregator.make_aggregator(ASN(ctx.int('asn', 0, U32)), IPv4(q_bytes(ctx, 'sp', 4))), 7, ('asn', 'speaker.pack_ip')))
+    add('aggregator/asn2', lambda ctx: enc_attr(ctx, 'attr-7', Aggregator.make_aggregator(ASN(ctx.int('asn', 0, 65535)), IPv4(q_bytes(ctx, 'sp', 4))), 7, ('asn', 'speaker.pack_ip'), asn4=False))
+    add('communities', lambda ctx: enc_attr(ctx, 'attr-8', Communities.make_communities([Community.make_community(ctx.int('a%d' % i, 0, 65535), ctx.int('v%d' % i, 0, 65535)) for i in range(ctx.pick('n', (1, 2)))]), 8, ('communities',)), weight=20)
+    add('large-communities', lambda ctx: enc_attr(ctx, 'attr-32', LargeCommunities.make_large_communities([LargeCommunity.make_large_community(ctx.int('g%d' % i, 0, U32), ctx.int('l%d' % i, 0, U32), ctx.int('m%d' % i, 0, U32)) for i in range(ctx.pick('n', (1, 2)))]), 32, ('communities',)), weight=20)
+
+    def extended(ctx):
+        which = ctx.pick('which', ('rt-asn2', 'rt-ip', 'rt-asn4', 'origin-asn2', 'redirect', 'mark', 'action', 'mac-mobility', 'encapsulation', 'l2info', 'two'))
+        tr = bool(ctx.choice('transitive', 2)) if which.startswith(('rt', 'origin')) else True
+
+        def one(w, n=''):
+            if w == 'rt-asn2':
+                return _rt.RouteTargetASN2Number.make_route_target(ASN(ctx.int('asn' + n, 0, 65535)), ctx.int('num' + n, 0, U32), tr)
+            if w == 'rt-ip':
+                return _rt.RouteTargetIPNumber.make_route_target(ctx.pick('ip' + n, ('192.0.2.1', '255.255.255.255')), ctx.int('num' + n, 0, 65535), tr)
+            if w == 'rt-asn4':
+                return _rt.RouteTargetASN4Number.make_route_target(ASN(ctx.int('asn' + n, 0, U32)), ctx.int('num' + n, 0, 65535), tr)
+            if w == 'origin-asn2':
+                return _so.OriginASNIP.make_origin(ASN(ctx.int('asn' + n, 0, 65535)), ctx.pick('ip' + n, ('192.0.2.1', '0.0.0.0')), tr)
+            if w == 'redirect':
+                return TrafficRedirect.make_traffic_redirect(ASN(ctx.int('asn' + n, 0, 65535)), ctx.int('target' + n, 0, U32))
+            if w == 'mark':
+                return TrafficMark.make_traffic_mark(ctx.int('dscp' + n, 0, 63))
+            if w == 'action':
+                return TrafficAction.make_traffic_action(bool(ctx.choice('sample' + n, 2)), bool(ctx.choice('terminal' + n, 2)))
+            if w == 'mac-mobility':
+                return MacMobility.make_mac_mobility(ctx.int('seq' + n, 0, U32), bool(ctx.choice('sticky' + n, 2)))
+            if w == 'encapsulation':
+                return Encapsulation.make_encapsulation(ctx.int('tunnel' + n, 0, 65535))
+            return L2Info.make_l2info(ctx.int('encaps' + n, 0, 255), ctx.int('control' + n, 0, 255), ctx.int('mtu' + n, 0, 65535), ctx.int('reserved' + n, 0, 65535))
+        members = [one('rt-asn2', '.a'), one('mark', '.b')] if which == 'two' else [one(which)]
+        x = ExtendedCommunities.make_extended_communities(members)
+        return enc_attr(ctx, 'attr-16:' + which, x, 16, ('communities',))
+    add('extended-communities', extended, weight=40)
+
+    def pmsi(ctx):
+        from exabgp.bgp.message.update.attribute.pmsi import PMSI as P
+        t = ctx.pick('tunnel-type', (0, 6, 1, 3))
+        tunnel = mk(ctx, []) if t == 0 else q_bytes(ctx, 'tunnel', {6: 4, 1: 12, 3: 8}[t])
+        x = P.make_pmsi(t, ctx.int('flags', 0, 255), ctx.int('label', 0, 2 ** 20 - 1), tunnel)
+        return enc_attr(ctx, 'attr-22', x, 22, ('flags', 'label', 'tunnel'))
+    add('pmsi', pmsi, weight=20)
+
+    def prefix_sid(ctx):
+        which = ctx.pick('which', ('label-index', 'label-index+srgb'))
+        attrs = [SrLabelIndex.make_labelindex(ctx.int('index', 0, U32))]
+        if which != 'label-index':
+            attrs.append(SrGb.make_srgb([(ctx.int('base%d' % i, 0, 2 ** 24 - 1), ctx.int('range%d' % i, 0, 2 ** 24 - 1)) for i in range(ctx.pick('n', (1, 2)))]))
+        x = PrefixSid(attrs)
+        return enc_attr(ctx, 'attr-40', x, 40, ('sr_attrs',))
+    add('prefix-sid', prefix_sid, weight=20)
+
+    def tunnel(ctx):
+        which = ctx.pick('which', ('preference', 'priority', 'binding-sid', 'binding-sid-null', 'names', 'segment-list', 'all'))
+        subs = []
+        if which in ('preference', 'all'):
+            subs.append(_sp.PreferenceSubTLV(ctx.int('pref', 0, U32), ctx.int('pref.flags', 0, 255)))
+        if which in ('priority', 'all'):
+            subs.append(_sp.PrioritySubTLV(ctx.int('prio', 0, 255)))
+        if which in ('binding-sid', 'all'):
+            subs.append(_sp.BindingSIDSubTLV(ctx.int('bsid', 0, 2 ** 20 - 1), ctx.pick('bsid.flags', (0, 0x80, 0xc0))))
+        if which == 'binding-sid-null':
+            subs.append(_sp.BindingSIDSubTLV(None, ctx.int('bsid.flags', 0, 255)))
+        if which in ('names', 'all'):
+            subs.append(_sp.PolicyNameSubTLV(ctx.pick('pname', ('edge-1', 'a "quoted" \\ name', 'caf\u00e9')), ctx.int('pname.flags', 0, 255)))
+            subs.append(_sp.CandidatePathNameSubTLV(ctx.pick('cname', ('path-1', '')), ctx.int('cname.flags', 0, 255)))
+        if which in ('segment-list', 'all'):
+            segs = [SegmentTypeA(ctx.pick('a.label', (16, 2 ** 20 - 1)), ctx.int('a.flags', 0, 255)), SegmentTypeA(ctx.pick('a2.label', (0, 1000)), 0)]
+            subs.append(_sp.SegmentListSubTLV(WeightSubSubTLV(ctx.int('weight', 0, U32), ctx.int('w.flags', 0, 255)), segs))
+        x = TunnelEncap([_sp.SRPolicyTunnel(subs)])
+        # the encoder sets two bits whatever the object holds: flag 0x10 of a binding SID that has a label, and S on the last MPLS
+        # segment of a list (RFC 3032); so the VALUES are compared field by field, those two bits are not, and of the renderings
+        # the text ones (json prints "s")
+        paths = []
+        for i, t in enumerate(subs):
+            base = 'tunnel_tlvs.0.subtlvs.%d.' % i
+            for f in {'PreferenceSubTLV': ('preference', 'flags'), 'PrioritySubTLV': ('priority',), 'BindingSIDSubTLV': ('label',), 'PolicyNameSubTLV': ('name', 'flags'),
+                      'CandidatePathNameSubTLV': ('name', 'flags'), 'SegmentListSubTLV': ('weight.weight', 'weight.flags', 'segments.0.label', 'segments.0.flags', 'segments.0.s', 'segments.1.label')}[type(t).__name__]:
+                paths.append(base + f)
+        return enc_attr(ctx, 'attr-23:' + which, x, 23, tuple(paths), renderings=('collection-str', '__str__'))
+    add('tunnel-encap', tunnel, weight=40)
+
+    # ---- BGP-LS attribute TLVs from their factories: the decoded content must be what was given to the factory
+    def ls(ctx, kind, obj, tlv, expect):
+        neg = session(False, True)
+        value = B(ctx, obj._packed)
+        data = mk(ctx, be(tlv, 2) + be(len(value), 2)) + value
+        ctx.cover('encoded')
+        try:
+            y = Attribute.unpack(29, 0x80, data, neg)
+            got = y.ls_attrs[0].content
+        except Exception as exc:
+            ctx.check('own-encoding-decodes', False, sig='C15:enc:attr-29:%s:own-encoding-refused' % kind, info={'data': data, 'raised': '%s %s' % (type(exc).__name__, str(exc)[:160])})
+            return ('refused', type(exc).__name__)
+        ctx.cover('decoded')
+        if isinstance(expect, dict):
+            for k, v in expect.items():
+                have = got.get(k) if isinstance(got, dict) else None
+                chk(ctx, 'content:' + k, sx_eq(state(have), state(v)), 'C15:enc:attr-29:%s:content-%s-differs' % (kind, k), lambda: {'data': data, 'given': v, 'decoded': have})
+        else:
+            chk(ctx, 'content', sx_eq(state(got), state(expect)), 'C15:enc:attr-29:%s:content-differs' % kind, lambda: {'data': data, 'given': expect, 'decoded': got})
+        return ('round-trip', type(y.ls_attrs[0]).__name__)
+
+    def ls_units():
+        from exabgp.bgp.message.update.attribute.bgpls.link.srv6endx import Srv6EndX
+        from exabgp.bgp.message.update.attribute.bgpls.link.srv6lanendx import Srv6LanEndXISIS, Srv6LanEndXOSPF
+        from exabgp.bgp.message.update.attribute.bgpls.link.temetric import TeMetric
+        from exabgp.bgp.message.update.attribute.bgpls.link.admingroup import AdminGroup
+        from exabgp.bgp.message.update.attribute.bgpls.link.srlg import Srlg
+        from exabgp.bgp.message.update.attribute.bgpls.link.localremoteid import LinkLocalRemoteId
+        from exabgp.bgp.message.update.attribute.bgpls.link.srv6endpointbehavior import Srv6EndpointBehavior
+        from exabgp.bgp.message.update.attribute.bgpls.prefix.prefixmetric import PrefixMetric
+        from exabgp.bgp.message.update.attribute.bgpls.prefix.igptags import IgpTags
+        from exabgp.bgp.message.update.attribute.bgpls.node.sralgo import SrAlgorithm
+        from exabgp.bgp.message.update.attribute.bgpls.node.isisarea import IsisArea
+        sid = ('fc00::3', '2001:db8:ffff:ffff:ffff:ffff:ffff:fffe')
+        flags0 = {'B': 0, 'S': 0, 'P': 0}
+
+        def endx(ctx):
+            b, a, w, s = ctx.int('behavior', 0, 65535), ctx.int('algorithm', 0, 255), ctx.int('weight', 0, 255), ctx.pick('sid', sid)
+            return ls(ctx, 'Srv6EndX', Srv6EndX.make_srv6_endx(b, dict(flags0), a, w, s), 1106, {'behavior': b, 'algorithm': a, 'weight': w, 'sid': s})
+
+        def lan_isis(ctx):
+            b, a, w, s = ctx.int('behavior', 0, 65535), ctx.int('algorithm', 0, 255), ctx.int('weight', 0, 255), ctx.pick('sid', sid)
+            n = ctx.pick('neighbor', ('0102.0304.0506', 'ffff.ffff.ffff'))
+            return ls(ctx, 'Srv6LanEndXISIS', Srv6LanEndXISIS.make_srv6_lan_endx_isis(b, dict(flags0), a, w, n, s), 1107, {'behavior': b, 'algorithm': a, 'weight': w, 'sid': s})
+
+        def lan_ospf(ctx):
+            b, a, w, s = ctx.int('behavior', 0, 65535), ctx.int('algorithm', 0, 255), ctx.int('weight', 0, 255), ctx.pick('sid', sid)
+            n = ctx.pick('neighbor', ('192.0.2.1', '255.255.255.255'))
+            return ls(ctx, 'Srv6LanEndXOSPF', Srv6LanEndXOSPF.make_srv6_lan_endx_ospf(b, dict(flags0), a, w, n, s), 1108, {'behavior': b, 'algorithm': a, 'weight': w, 'neighbor-id': n, 'sid': s})
+        add('bgp-ls/srv6-endx', endx)
+        add('bgp-ls/srv6-lan-endx-isis', lan_isis)
+        add('bgp-ls/srv6-lan-endx-ospf', lan_ospf)
+        add('bgp-ls/te-metric', lambda ctx: (lambda m: ls(ctx, 'TeMetric', TeMetric.make_temetric(m), 1092, m))(ctx.int('metric', 0, U32)))
+        add('bgp-ls/admin-group', lambda ctx: (lambda m: ls(ctx, 'AdminGroup', AdminGroup.make_admingroup(m), 1088, m))(ctx.int('mask', 0, U32)))
+        add('bgp-ls/prefix-metric', lambda ctx: (lambda m: ls(ctx, 'PrefixMetric', PrefixMetric.make_prefixmetric(m), 1155, m))(ctx.int('metric', 0, U32)))
+        add('bgp-ls/srlg', lambda ctx: (lambda v: ls(ctx, 'Srlg', Srlg.make_srlg(v), 1096, v))([ctx.int('srlg%d' % i, 0, U32) for i in range(ctx.pick('n', (1, 2)))]))
+        add('bgp-ls/igp-tags', lambda ctx: (lambda v: ls(ctx, 'IgpTags', IgpTags.make_igp_tags(v), 1153, v))([ctx.int('tag%d' % i, 0, U32) for i in range(ctx.pick('n', (1, 2)))]))
+        add('bgp-ls/sr-algorithm', lambda ctx: (lambda v: ls(ctx, 'SrAlgorithm', SrAlgorithm.make_sr_algorithm(v), 1035, v))([ctx.int('algo%d' % i, 0, 255) for i in range(ctx.pick('n', (1, 2)))]))
+        add('bgp-ls/link-ids', lambda ctx: (lambda a, b: ls(ctx, 'LinkLocalRemoteId', LinkLocalRemoteId.make_link_identifiers(a, b), 258, {'local-id': a, 'remote-id': b}))(ctx.int('local', 0, U32), ctx.int('remote', 0, U32)))
+        add('bgp-ls/srv6-endpoint-behavior', lambda ctx: (lambda b, a: ls(ctx, 'Srv6EndpointBehavior', Srv6EndpointBehavior.make_srv6_endpoint_behavior(b, a), 1250, {'endpoint-behavior': b, 'algorithm': a}))(ctx.int('behavior', 0, 65535), ctx.int('algorithm', 0, 255)))
+    ls_units()
+    return us
+
+
+# ============================================================================= index / == / hash (clause c)
+#
+# Two routes a, b of one class are built by the factories from independent symbolic fields.
+#   equal routes (the class's own ==, forked)      =>  index(a) == index(b)  and  hash(a) == hash(b)
+#   index(a) == index(b)                            =>  same path identifier, same prefix, same route distinguisher
+#   (family: the same fields packed for two families never give one index)
+# hash(): C code; the modules' `hash` name is shadowed during these units so that __hash__ returns its KEY (the tuple / bytes it
+# hashes): equal keys <=> equal hashes up to collisions.  A key that is a formatted string is sampled text: for those classes the
+# hash obligation is the witness on each path's model only.
+
+import builtins as _builtins   # noqa: E402
+import sys as _sys   # noqa: E402
+
+
+class HK:
+    def __init__(self, v):
+        self.v = v
+
+
+def _has_carrier(v, depth=0):
+    if isinstance(v, (SBytes, SInt, SBool, HK)):
+        return True
+    if isinstance(v, (tuple, list)) and depth < 4:
+        return any(_has_carrier(i, depth + 1) for i in v)
+    if isinstance(v, (int, str, bytes, bytearray, memoryview, float, type(None))):
+        return False
+    h = getattr(type(v), '__hash__', None)
+    mod = getattr(type(v), '__module__', '')
+    if h is not None and mod.startswith('exabgp.') and depth < 4:
+        try:
+            return isinstance(h(v), HK)
+        except Exception:
+            return False
+    return False
+
+
+def hk(v):
+    """stand-in for builtins.hash inside the NLRI modules during index units: the key itself when it holds carriers"""
+    if _has_carrier(v):
+        return HK(v)
+    return _builtins.hash(v)
+
+
+def hk_norm(v, depth=0):
+    if isinstance(v, HK):
+        return hk_norm(v.v, depth)
+    if isinstance(v, (tuple, list)):
+        return [hk_norm(i, depth + 1) for i in v]
+    if isinstance(v, (bytes, bytearray, memoryview)):
+        return bytes(v)
+    if isinstance(v, (SBytes, SInt, SBool, int, type(None))):
+        return v
+    if isinstance(v, str):
+        return ['text', str(v)]
+    h = getattr(type(v), '__hash__', None)
+    if h is not None and getattr(type(v), '__module__', '').startswith('exabgp.') and depth < 4:
+        r = h(v)
+        return hk_norm(r, depth + 1) if isinstance(r, HK) else ['hash', r]
+    return ['object', type(v).__name__]
+
+
+def has_text(n):
+    if isinstance(n, list):
+        return (len(n) == 2 and n[0] == 'text') or any(has_text(i) for i in n)
+    return False
+
+
+class shadow_hash:
+    def __enter__(self):
+        self.mods = [m for n, m in list(_sys.modules.items()) if n.startswith(('exabgp.bgp.message.update.nlri', 'exabgp.protocol.ip', 'exabgp.protocol.family')) and m is not None]
+        for m in self.mods:
+            m.__dict__['hash'] = hk
+        return self
+
+    def __exit__(self, *a):
+        for m in self.mods:
+            m.__dict__.pop('hash', None)
+        return False
+
+
+def index_pair(ctx, kind, a, b, keys, same_family=True):
+    """the obligations of clause (c) on two routes"""
+    ia, ib = B(ctx, a.index()), B(ctx, b.index())
+    same_index = sx_eq(ia, ib)
+    ctx.cover('built')
+    # never share an index when they differ in path identifier / prefix / route distinguisher
+    for f in keys:
+        fa, fb = state(fld(a, f)), state(fld(b, f))
+        chk(ctx, 'index-separates:' + f, s_implies(same_index, sx_eq(fa, fb)), 'C15:index:%s:shared-by-routes-differing-in-%s' % (kind, f),
+            lambda: {'a': a.pack_nlri(session(False)), 'b': b.pack_nlri(session(False)), 'index-a': ia, 'index-b': ib, 'field-a': fa, 'field-b': fb})
+    if not same_family:
+        chk(ctx, 'index-separates:family', s_not(same_index), 'C15:index:%s:shared-across-families' % kind, lambda: {'index-a': ia, 'index-b': ib})
+        return ('two-families',)
+    # equal routes: equal index, equal hash
+    equal = eq_by_class(a, b)
+    if not equal:
+        ctx.cover('unequal')
+        return ('unequal',)
+    ctx.cover('equal')
+    chk(ctx, 'equal-index', same_index, 'C15:index:%s:equal-routes-different-index' % kind,
+        lambda: {'a': a.pack_nlri(session(False)), 'b': b.pack_nlri(session(False)), 'index-a': ia, 'index-b': ib})
+    if ctx.sym:
+        with shadow_hash():
+            ka, kb = hk_norm(type(a).__hash__(a)), hk_norm(type(b).__hash__(b))
+        if not has_text(ka) and not has_text(kb):
+            chk(ctx, 'equal-hash', sx_eq(ka, kb), 'C15:index:%s:equal-routes-different-hash' % kind,
+                lambda: {'a': a.pack_nlri(session(False)), 'b': b.pack_nlri(session(False)), 'key-a': ka, 'key-b': kb})
+    else:
+        # same name as the symbolic obligation: a counterexample is confirmed by the real hash() in the clean interpreter
+        ctx.check('equal-hash', hash(a) == hash(b), sig='C15:index:%s:equal-routes-different-hash' % kind,
+                  info={'a': a.pack_nlri(session(False)), 'b': b.pack_nlri(session(False))})
+    return ('equal',)
+
+
+def index_units(tier):
+    th = tier == 'thorough'
+    us = []
+    T = 1500 if th else 400
+
+    def add(name, fn, weight=30, cover=('built', 'equal', 'unequal')):
+        us.append(Unit('index/' + name, fn, must_cover=cover, weight=weight, max_seconds=T, max_paths=40000, reset=reset_state, hash_const=True))
+
+    def two(ctx, build):
+        return build(ctx, 'a.'), build(ctx, 'b.')
+
+    for v6 in (False, True):
+        afi = 2 if v6 else 1
+        v = 'ipv6' if v6 else 'ipv4'
+        full = 16 if v6 else 4
+        # quick, ipv6: the boundary sizes plus the pairs of sizes at which an index with and without a path identifier have the
+        # same length (9/13 unicast, 13/14 nlri-mpls, 5/6 mpls-vpn); thorough: every size
+        sizes = list(range(full + 1)) if th or not v6 else [0, 1, 9, 13, 16]
+        small = sizes if not v6 else ([0, 5, 6, 13, 14, 16] if not th else sizes)
+
+        def inet(ctx, n, v6=v6, afi=afi, sizes=sizes):
+            return INET.from_cidr(q_cidr(ctx, v6, n + 'pfx', sizes), AFI.from_int(afi), SAFI.unicast, q_path(ctx, bool(ctx.choice(n + 'has-path', 2)), n + 'pathid'))
+        add('%s-unicast' % v, lambda ctx, v=v, inet=inet: index_pair(ctx, '%s-unicast' % v, *two(ctx, inet), keys=('path_info.pack_path', 'cidr.mask', 'cidr.pack_ip')), weight=60)
+
+        def label(ctx, n, v6=v6, afi=afi, sizes=small):
+            depth = ctx.pick(n + 'depth', (1, 2) if th else (1,))
+            return Label.from_cidr(q_cidr(ctx, v6, n + 'pfx', sizes), AFI.from_int(afi), SAFI.nlri_mpls, q_path(ctx, bool(ctx.choice(n + 'has-path', 2)), n + 'pathid'), q_labels(ctx, depth, n + 'label'))
+        add('%s-nlri-mpls' % v, lambda ctx, v=v, label=label: index_pair(ctx, '%s-nlri-mpls' % v, *two(ctx, label), keys=('path_info.pack_path', 'cidr.mask', 'cidr.pack_ip')), weight=120)
+
+        def vpn(ctx, n, v6=v6, afi=afi, sizes=small):
+            return IPVPN.from_cidr(q_cidr(ctx, v6, n + 'pfx', sizes), AFI.from_int(afi), SAFI.mpls_vpn, q_path(ctx, bool(ctx.choice(n + 'has-path', 2)), n + 'pathid'), q_labels(ctx, 1, n + 'label'), q_rd(ctx, n + 'rd'))
+        add('%s-mpls-vpn' % v, lambda ctx, v=v, vpn=vpn: index_pair(ctx, '%s-mpls-vpn' % v, *two(ctx, vpn), keys=('path_info.pack_path', 'cidr.mask', 'cidr.pack_ip', 'rd.pack_rd')), weight=120)
+
+        def cross(ctx, v6=v6, afi=afi, v=v, full=full):
+            cidr = q_cidr(ctx, v6, 'pfx', [0, 1, full])
+            which = ctx.pick('families', ('unicast/multicast', 'unicast/nlri-mpls', 'nlri-mpls/mpls-vpn'))
+            A = AFI.from_int(afi)
+            if which == 'unicast/multicast':
+                a, b = INET.from_cidr(cidr, A, SAFI.unicast), INET.from_cidr(cidr, A, SAFI.multicast)
+            elif which == 'unicast/nlri-mpls':
+                a, b = INET.from_cidr(cidr, A, SAFI.unicast), Label.from_cidr(cidr, A, SAFI.nlri_mpls, PathInfo.DISABLED, None)
+            else:
+                lb = q_labels(ctx, 1)
+                a, b = Label.from_cidr(cidr, A, SAFI.nlri_mpls, PathInfo.DISABLED, lb), IPVPN.from_cidr(cidr, A, SAFI.mpls_vpn, PathInfo.DISABLED, lb, None)
+            return index_pair(ctx, '%s:%s' % (v, which), a, b, keys=(), same_family=False)
+        add('%s-cross-family' % v, cross, cover=('built',))
+
+    add('l2vpn-vpls', lambda ctx: index_pair(ctx, 'l2vpn-vpls', *two(ctx, lambda ctx, n: VPLS.make_vpls(q_rd(ctx, n + 'rd'), ctx.int(n + 'endpoint', 0, 65535), ctx.int(n + 'base', 0, 2 ** 20 - 1), ctx.int(n + 'offset', 0, 65535), ctx.int(n + 'size', 0, 65535))),
+                                                 keys=('rd.pack_rd', 'endpoint')))
+
+    from exabgp.bgp.message.update.nlri.evpn.mac import MAC as EVPNMAC
+    from exabgp.bgp.message.update.nlri.evpn.multicast import Multicast
+    from exabgp.bgp.message.update.nlri.evpn.ethernetad import EthernetAD
+    from exabgp.bgp.message.update.nlri.evpn.segment import EthernetSegment
+    from exabgp.bgp.message.update.nlri.evpn.prefix import Prefix as EVPNPrefix
+
+    def esi(ctx, n):
+        return ESI(q_bytes(ctx, n + 'esi', 10))
+
+    def etag(ctx, n):
+        return EthernetTag.make_etag(ctx.int(n + 'etag', 0, 2 ** 32 - 1))
+    add('l2vpn-evpn/mac', lambda ctx: index_pair(ctx, 'l2vpn-evpn:mac', *two(ctx, lambda ctx, n: EVPNMAC.make_mac(q_rd(ctx, n + 'rd'), esi(ctx, n), etag(ctx, n), MACQ(packed=q_bytes(ctx, n + 'mac', 6)), 48, q_labels(ctx, 1, n + 'label'), q_ip(ctx, n + 'ip', False))), keys=('rd.pack_rd',)))
+    add('l2vpn-evpn/ethernet-ad', lambda ctx: index_pair(ctx, 'l2vpn-evpn:ethernet-ad', *two(ctx, lambda ctx, n: EthernetAD.make_ethernetad(q_rd(ctx, n + 'rd'), esi(ctx, n), etag(ctx, n), q_labels(ctx, 1, n + 'label'))), keys=('rd.pack_rd',)))
+    add('l2vpn-evpn/multicast', lambda ctx: index_pair(ctx, 'l2vpn-evpn:multicast', *two(ctx, lambda ctx, n: Multicast.make_multicast(q_rd(ctx, n + 'rd'), etag(ctx, n), q_ip(ctx, n + 'ip', False))), keys=('rd.pack_rd',)))
+    add('l2vpn-evpn/ethernet-segment', lambda ctx: index_pair(ctx, 'l2vpn-evpn:ethernet-segment', *two(ctx, lambda ctx, n: EthernetSegment.make_ethernetsegment(q_rd(ctx, n + 'rd'), esi(ctx, n), q_ip(ctx, n + 'ip', False))), keys=('rd.pack_rd',)))
+    add('l2vpn-evpn/prefix', lambda ctx: index_pair(ctx, 'l2vpn-evpn:prefix', *two(ctx, lambda ctx, n: EVPNPrefix.make_prefix(q_rd(ctx, n + 'rd'), esi(ctx, n), etag(ctx, n), q_labels(ctx, 1, n + 'label'), q_ip(ctx, n + 'ip', False), ctx.int(n + 'iplen', 0, 32), q_ip(ctx, n + 'gw', False))), keys=('rd.pack_rd', 'ip.pack_ip', 'iplen')))
+
+    from exabgp.bgp.message.update.nlri.mup.dsd import DirectSegmentDiscoveryRoute
+    from exabgp.bgp.message.update.nlri.mup.isd import InterworkSegmentDiscoveryRoute
+    from exabgp.bgp.message.update.nlri.mup.t1st import Type1SessionTransformedRoute
+    from exabgp.bgp.message.update.nlri.mup.t2st import Type2SessionTransformedRoute
+    A4 = AFI.ipv4
+
+    def isd(ctx, n):
+        c = q_cidr(ctx, False, n + 'pfx', [0, 1, 3, 4])
+        return InterworkSegmentDiscoveryRoute.make_isd(q_rd(ctx, n + 'rd'), c.mask, IPv4(B(ctx, c._packed)), A4)
+
+    def t1st(ctx, n):
+        c = q_cidr(ctx, False, n + 'pfx', [0, 3, 4])
+        return Type1SessionTransformedRoute.make_t1st(q_rd(ctx, n + 'rd'), c.mask, IPv4(B(ctx, c._packed)), ctx.int(n + 'teid', 0, 2 ** 32 - 1), ctx.int(n + 'qfi', 0, 255), 32, q_ip(ctx, n + 'ep', False), 0, b'', A4)
+    add('ipv4-mup/dsd', lambda ctx: index_pair(ctx, 'ipv4-mup:dsd', *two(ctx, lambda ctx, n: DirectSegmentDiscoveryRoute.make_dsd(q_rd(ctx, n + 'rd'), q_ip(ctx, n + 'ip', False), A4)), keys=('rd.pack_rd', 'ip.pack_ip')))
+    add('ipv4-mup/isd', lambda ctx: index_pair(ctx, 'ipv4-mup:isd', *two(ctx, isd), keys=('rd.pack_rd', 'prefix_ip_len', 'prefix_ip.pack_ip')))
+    add('ipv4-mup/t1st', lambda ctx: index_pair(ctx, 'ipv4-mup:t1st', *two(ctx, t1st), keys=('rd.pack_rd', 'prefix_ip_len', 'prefix_ip.pack_ip')))
+    add('ipv4-mup/t2st', lambda ctx: index_pair(ctx, 'ipv4-mup:t2st', *two(ctx, lambda ctx, n: Type2SessionTransformedRoute.make_t2st(q_rd(ctx, n + 'rd'), 64, q_ip(ctx, n + 'ep', False), ctx.int(n + 'teid', 0, 2 ** 32 - 1), A4)), keys=('rd.pack_rd', 'endpoint_ip.pack_ip')))
+
+    from exabgp.bgp.message.update.nlri.mvpn.sourcead import SourceAD
+    from exabgp.bgp.message.update.nlri.mvpn.sharedjoin import SharedJoin
+    from exabgp.bgp.message.update.nlri.mvpn.sourcejoin import SourceJoin
+    add('ipv4-mcast-vpn/source-ad', lambda ctx: index_pair(ctx, 'ipv4-mcast-vpn:source-ad', *two(ctx, lambda ctx, n: SourceAD.make_sourcead(q_rd(ctx, n + 'rd'), A4, q_ip(ctx, n + 'src', False), q_ip(ctx, n + 'grp', False))), keys=('rd.pack_rd',)))
+    add('ipv4-mcast-vpn/shared-join', lambda ctx: index_pair(ctx, 'ipv4-mcast-vpn:shared-join', *two(ctx, lambda ctx, n: SharedJoin.make_sharedjoin(q_rd(ctx, n + 'rd'), A4, q_ip(ctx, n + 'src', False), q_ip(ctx, n + 'grp', False), ctx.int(n + 'as', 0, 2 ** 32 - 1))), keys=('rd.pack_rd',)))
+    add('ipv4-mcast-vpn/source-join', lambda ctx: index_pair(ctx, 'ipv4-mcast-vpn:source-join', *two(ctx, lambda ctx, n: SourceJoin.make_sourcejoin(q_rd(ctx, n + 'rd'), A4, q_ip(ctx, n + 'src', False), q_ip(ctx, n + 'grp', False), ctx.int(n + 'as', 0, 2 ** 32 - 1))), keys=('rd.pack_rd',)))
+    add('ipv4-sr-policy', lambda ctx: index_pair(ctx, 'ipv4-sr-policy', *two(ctx, lambda ctx, n: SRPolicyNLRI(A4, q_bytes(ctx, n + 'body', 12))), keys=('distinguisher', 'color')))
+
+    def rtc(ctx, n):
+        from exabgp.bgp.message.update.attribute.community.extended.rt import RouteTargetASN2Number
+        return RTC.make_rtc(ASN(ctx.int(n + 'origin', 0, 2 ** 32 - 1)), RouteTargetASN2Number.make_route_target(ASN(ctx.int(n + 'rt.asn', 0, 65535)), ctx.int(n + 'rt.number', 0, 2 ** 32 - 1)))
+    add('ipv4-rtc', lambda ctx: index_pair(ctx, 'ipv4-rtc', *two(ctx, rtc), keys=('origin', 'rt.pack')))
+
+    # BGP-LS: two decodes of the node NLRI, plain and VPN (the route distinguisher is part of the VPN route)
+    def ls_node(ctx, vpn):
+        def one(n):
+            rd = sym(ctx, n + 'rd', 8) if vpn else []
+            body = [3] + sym(ctx, n + 'ident', 8) + tlv16(256, tlv16(512, sym(ctx, n + 'as', 4)) + tlv16(515, sym(ctx, n + 'rid', 4)))
+            data = mk(ctx, be(1, 2) + be(len(rd) + len(body), 2) + rd + body)
+            nlri, left = NLRI.unpack_nlri(AFI.bgpls, SAFI.bgp_ls_vpn if vpn else SAFI.bgp_ls, data, Action.ANNOUNCE, False, session(False))
+            return nlri
+        a, b = one('a.'), one('b.')
+        return index_pair(ctx, 'bgp-ls%s:node' % ('-vpn' if vpn else ''), a, b, keys=('route_d.pack_rd',) if vpn else ())
+    add('bgp-ls/node', lambda ctx: ls_node(ctx, False))
+    add('bgp-ls-vpn/node', lambda ctx: ls_node(ctx, True))
+    return us
+
+
 def units(tier):
     us = []
     us += nlri_units(tier)
     us += attr_units(tier)
+    us += enc_nlri_units(tier)
+    us += enc_attr_units(tier)
+    us += index_units(tier)
     return us
